@@ -473,4 +473,333 @@ theorem quoted_budgets_sum_le (input : Bytes) (is : List Item) (hl : Lex.lexAll 
   have h5 := sum_map_affine 69 80 is
   omega
 
+/-! ### the length premise, discharged
+
+  The strings the model hands to `parseQuotedExpr` are `goUnquote tok.val` of a String token
+  (`parseAttrs`) and `trimSpace (tok.val.take lastComma)` of a Text token (`parseCss`).  Both are at
+  most 3 times as long as the token (`goUnquote_length_le`, `css_expr_length_le`), so
+  `quoted_budgets_sum_le_model` needs no length hypothesis: what remains as prose is only that each
+  quoted string of a run comes from a token of its own. -/
+
+theorem trimLeftSpace_length_le : ∀ (f : Nat) (s : Bytes), (trimLeftSpace f s).length ≤ s.length := by
+  intro f
+  induction f with
+  | zero => intro s; simp [trimLeftSpace]
+  | succ f ih =>
+    intro s
+    cases s with
+    | nil => simp [trimLeftSpace]
+    | cons b r =>
+      rw [trimLeftSpace]
+      · simp only
+        split
+        · have := ih ((b :: r).drop (Utf8.decodeRune (b :: r)).2)
+          simp only [List.length_drop] at this
+          omega
+        · exact Nat.le_refl _
+      · simp
+
+theorem trimRightSpace_length_le : ∀ (f : Nat) (s : Bytes), (trimRightSpace f s).length ≤ s.length := by
+  intro f
+  induction f with
+  | zero => intro s; simp [trimRightSpace]
+  | succ f ih =>
+    intro s
+    rw [trimRightSpace]
+    split
+    · exact Nat.le_refl _
+    · simp only
+      split
+      · have := ih (s.take (s.length - (decodeLastRune s).2))
+        simp only [List.length_take] at this
+        omega
+      · exact Nat.le_refl _
+
+theorem trimSpace_length_le (s : Bytes) : (trimSpace s).length ≤ s.length := by
+  unfold trimSpace
+  have h1 := trimLeftSpace_length_le s.length s
+  have h2 := trimRightSpace_length_le (trimLeftSpace s.length s).length (trimLeftSpace s.length s)
+  exact Nat.le_trans h2 h1
+
+theorem encodeRune_length_le (r : Int) : (Utf8.encodeRune r).length ≤ 4 := by
+  unfold Utf8.encodeRune
+  simp only
+  generalize (if Utf8.validRune r = true then r.toNat else Utf8.runeError) = n
+  repeat' split
+  all_goals simp
+
+theorem takeHex_length : ∀ (n : Nat) (s : Bytes) (acc v : Nat) (r : Bytes),
+    takeHex n s acc = some (v, r) → r.length + n = s.length := by
+  intro n
+  induction n with
+  | zero => intro s acc v r h; simp [takeHex] at h; rw [h.2]; simp
+  | succ n ih =>
+    intro s acc v r h
+    cases s with
+    | nil => simp [takeHex] at h
+    | cons b t =>
+      rw [takeHex] at h
+      cases hv : hexVal b with
+      | none => rw [hv] at h; simp at h
+      | some x =>
+        rw [hv] at h
+        simp only [Option.bind_some] at h
+        have := ih t _ v r h
+        simp only [List.length_cons]; omega
+
+
+/-- the bytes `unquoteLoop` appends for one character -/
+def outLen (r : Nat) (mb : Bool) : Nat := if r < 0x80 || !mb then 1 else (Utf8.encodeRune r).length
+
+theorem outLen_false (r : Nat) : outLen r false = 1 := by simp [outLen]
+theorem outLen_le4 (r : Nat) (mb : Bool) : outLen r mb ≤ 4 := by
+  unfold outLen; split
+  · omega
+  · exact encodeRune_length_le _
+
+theorem decodeRune_cases (b0 : UInt8) (rest : Bytes) :
+    (Utf8.decodeRune (b0 :: rest)).2 ≤ (b0 :: rest).length ∧
+    (((Utf8.decodeRune (b0 :: rest)).2 = 1 ∧
+        ((Utf8.decodeRune (b0 :: rest)).1 < 0x80 ∨ (Utf8.decodeRune (b0 :: rest)).1 = Utf8.runeError)) ∨
+      2 ≤ (Utf8.decodeRune (b0 :: rest)).2) := by
+  unfold Utf8.decodeRune
+  simp only
+  repeat' split
+  all_goals first
+    | exact ⟨by simp, Or.inr (Nat.le_refl 2)⟩
+    | exact ⟨by simp, Or.inr (by show 2 ≤ 3; omega)⟩
+    | exact ⟨by simp, Or.inr (by show 2 ≤ 4; omega)⟩
+    | exact ⟨by simp, Or.inl ⟨rfl, Or.inl (by assumption)⟩⟩
+    | exact ⟨by simp, Or.inl ⟨rfl, Or.inr rfl⟩⟩
+
+theorem outLen_runeError : outLen Utf8.runeError true = 3 := by
+  decide
+
+theorem outLen_decode (b0 : UInt8) (rest : Bytes) :
+    outLen (Utf8.decodeRune (b0 :: rest)).1 true + 3 * ((b0 :: rest).drop (Utf8.decodeRune (b0 :: rest)).2).length
+      ≤ 3 * (b0 :: rest).length := by
+  obtain ⟨hw, hc⟩ := decodeRune_cases b0 rest
+  simp only [List.length_drop]
+  rcases hc with ⟨h1, h2 | h2⟩ | h2
+  · have : outLen (Utf8.decodeRune (b0 :: rest)).1 true = 1 := by simp [outLen, h2]
+    omega
+  · rw [h2, outLen_runeError]; omega
+  · have := outLen_le4 (Utf8.decodeRune (b0 :: rest)).1 true
+    omega
+
+
+/-- close a branch of `unquoteChar`: the result is a literal triple -/
+macro "uq_fin" h:ident : tactic => `(tactic| (
+  simp only [Option.some.injEq, Prod.mk.injEq] at $h:ident
+  rcases $h:ident with ⟨h1, h2, h3⟩
+  subst h1; subst h2; subst h3
+  simp only [List.length_cons]
+  first
+    | (rw [outLen_false]; omega)
+    | (have := outLen_le4 _ true; omega)))
+
+set_option maxRecDepth 100000 in
+theorem unquoteChar_le (s : Bytes) (q : UInt8) (r : Nat) (mb : Bool) (rem : Bytes)
+    (h : unquoteChar s q = some (r, mb, rem)) : outLen r mb + 3 * rem.length ≤ 3 * s.length := by
+  cases s with
+  | nil => simp [unquoteChar] at h
+  | cons c rest =>
+    unfold unquoteChar at h
+    simp only at h
+    split at h
+    · exact absurd h (by simp)
+    split at h
+    · simp only [Option.some.injEq, Prod.mk.injEq] at h
+      obtain ⟨rfl, rfl, rfl⟩ := h
+      exact outLen_decode c rest
+    split at h
+    · uq_fin h
+    split at h
+    · exact absurd h (by simp)
+    · rename_i e r2
+      split at h
+      any_goals uq_fin h
+      · -- \xhh
+        cases ht : takeHex 2 r2 0 with
+        | none => rw [ht] at h; simp at h
+        | some p =>
+          rw [ht] at h
+          have hl := takeHex_length 2 r2 0 p.1 p.2 ht
+          simp only [Option.map_some] at h
+          uq_fin h
+      · -- \uhhhh
+        cases ht : takeHex 4 r2 0 with
+        | none => rw [ht] at h; simp at h
+        | some p =>
+          rw [ht] at h
+          have hl := takeHex_length 4 r2 0 p.1 p.2 ht
+          simp only [Option.bind_some] at h
+          split at h
+          · simp only [Option.some.injEq, Prod.mk.injEq] at h
+            rcases h with ⟨h1, h2, h3⟩
+            subst h1; subst h2; subst h3
+            have := outLen_le4 p.1 true
+            simp only [List.length_cons]; omega
+          · exact absurd h (by simp)
+      · -- \Uhhhhhhhh
+        cases ht : takeHex 8 r2 0 with
+        | none => rw [ht] at h; simp at h
+        | some p =>
+          rw [ht] at h
+          have hl := takeHex_length 8 r2 0 p.1 p.2 ht
+          simp only [Option.bind_some] at h
+          split at h
+          · simp only [Option.some.injEq, Prod.mk.injEq] at h
+            rcases h with ⟨h1, h2, h3⟩
+            subst h1; subst h2; subst h3
+            have := outLen_le4 p.1 true
+            simp only [List.length_cons]; omega
+          · exact absurd h (by simp)
+      · split at h
+        · uq_fin h
+        · exact absurd h (by simp)
+      · split at h
+        · uq_fin h
+        · exact absurd h (by simp)
+      · split at h
+        · split at h
+          · split at h
+            · split at h
+              · exact absurd h (by simp)
+              · uq_fin h
+            · exact absurd h (by simp)
+          · exact absurd h (by simp)
+        · exact absurd h (by simp)
+
+
+theorem unquoteLoop_le : ∀ (fuel : Nat) (s : Bytes) (q : UInt8) (buf out rem : Bytes),
+    unquoteLoop fuel s q buf = some (out, rem) → out.length + 3 * rem.length ≤ buf.length + 3 * s.length := by
+  intro fuel
+  induction fuel with
+  | zero => intro s q buf out rem h; simp [unquoteLoop] at h
+  | succ fuel ih =>
+    intro s q buf out rem h
+    unfold unquoteLoop at h
+    split at h
+    · exact absurd h (by simp)
+    · rename_i c rest
+      split at h
+      · simp only [Option.some.injEq, Prod.mk.injEq] at h
+        rcases h with ⟨h1, h2⟩
+        subst h1; subst h2
+        simp only [List.length_cons]; omega
+      · split at h
+        · exact absurd h (by simp)
+        · rename_i r mb rm huc
+          have hc := unquoteChar_le _ _ _ _ _ huc
+          split at h
+          · exact absurd h (by simp)
+          · have hb : (if (r < 0x80 || !mb) = true then buf ++ [UInt8.ofNat r] else buf ++ Utf8.encodeRune r).length
+                = buf.length + outLen r mb := by
+              unfold outLen
+              split <;> simp
+            simp only at h
+            split at h
+            · split at h
+              · split at h
+                · simp only [Option.some.injEq, Prod.mk.injEq] at h
+                  rcases h with ⟨h1, h2⟩
+                  subst h1; subst h2
+                  rw [hb]
+                  simp only [List.length_cons] at hc ⊢
+                  omega
+                · exact absurd h (by simp)
+              · exact absurd h (by simp)
+            · have := ih _ _ _ _ _ h
+              rw [hb] at this
+              omega
+
+theorem indexByte_lt {s : Bytes} {b : UInt8} {i : Nat} (h : indexByte s b = some i) : i < s.length := by
+  unfold indexByte at h
+  simp only at h
+  split at h
+  · simp only [Option.some.injEq] at h; omega
+  · exact absurd h (by simp)
+
+/-- `strconv.Unquote` at most triples the length: escapes only shrink, but in the slow path a byte
+    that is not valid UTF-8 becomes the 3 bytes of U+FFFD -/
+theorem goUnquote_length_le (s r : Bytes) (h : goUnquote s = some r) : r.length ≤ 3 * s.length := by
+  unfold goUnquote at h
+  split at h
+  · exact absurd h (by simp)
+  · exact absurd h (by simp)
+  · rename_i quote body _
+    split at h
+    · split at h
+      · exact absurd h (by simp)
+      · split at h
+        · simp only [Option.some.injEq] at h
+          subst h
+          have := List.length_filter_le (fun x : UInt8 => x != 13) (List.take ‹Nat› body)
+          simp only [List.length_take, List.length_cons] at this ⊢
+          omega
+        · exact absurd h (by simp)
+    · split at h
+      · exact absurd h (by simp)
+      · split at h
+        · exact absurd h (by simp)
+        · rename_i endIdx _
+          simp only at h
+          split at h
+          · rename_i out hfast
+            split at h
+            · simp only [Option.some.injEq] at h
+              subst h
+              have hout : out = body.take endIdx := by
+                revert hfast
+                repeat' split
+                all_goals simp
+                all_goals (intro e; exact e.symm)
+              rw [hout]
+              simp only [List.length_take, List.length_cons]
+              omega
+            · exact absurd h (by simp)
+          · split at h
+            · split at h
+              · simp only [Option.some.injEq] at h
+                subst h
+                rename_i out rem hloop _
+                have := unquoteLoop_le _ _ _ _ _ _ hloop
+                simp only [List.length_nil, List.length_cons] at this ⊢
+                omega
+              · exact absurd h (by simp)
+            · exact absurd h (by simp)
+
+/-- the expression string of `{css e, x}` is not longer than the Text token it is cut from -/
+theorem css_expr_length_le (v : Bytes) (k : Nat) : (trimSpace (v.take k)).length ≤ v.length := by
+  have := trimSpace_length_le (v.take k)
+  simp only [List.length_take] at this
+  omega
+
+/-- the string the model hands to `parseQuotedExpr` for a token: `strconv.Unquote` of a String token's
+    value (`parseAttrs`), the trimmed text in front of the last comma of a Text token (`parseCss`) -/
+def quotedStr (t : Item) : Bytes :=
+  if t.typ = .tString then (goUnquote t.val).getD []
+  else match lastIndexByte t.val 44 with
+    | some k => trimSpace (t.val.take k)
+    | none => []
+
+theorem quotedStr_length_le (t : Item) : (quotedStr t).length ≤ 3 * t.val.length := by
+  unfold quotedStr
+  split
+  · cases h : goUnquote t.val with
+    | none => simp
+    | some r => simpa using goUnquote_length_le t.val r h
+  · split
+    · have := css_expr_length_le t.val ‹Nat›
+      omega
+    · simp
+
+/-- the quoted expressions of one file, with the strings the MODEL computes from the tokens: for any
+    sub-list of the token stream the budgets sum to at most `229·n + 149` -/
+theorem quoted_budgets_sum_le_model (input : Bytes) (is : List Item) (hl : Lex.lexAll input false = .items is)
+    (ts : List Item) (hsub : ts.Sublist is) :
+    (ts.map (fun t => quotedBudget (quotedStr t).length)).sum ≤ 229 * input.length + 149 :=
+  quoted_budgets_sum_le input is hl ts hsub quotedStr quotedStr_length_le
+
 end SoyVerif.Props.C05
